@@ -64,6 +64,8 @@ def _captured(fn: ast.AST, name: str) -> bool:
     return False
 
 
+_CONTENT_MUTATORS = {'append', 'extend', 'insert', 'remove', 'pop', 'clear', 'sort', 'reverse', 'update', 'setdefault', 'popitem', 'add',
+                     'discard', 'difference_update', 'intersection_update', 'symmetric_difference_update', 'move_to_end'}
 _PURE_CALLS = {'isinstance', 'issubclass', 'len', 'str', 'repr', 'type', 'hasattr', 'getattr', 'int', 'bool', 'float', 'cast',
                'list', 'tuple', 'set', 'dict', 'sorted', 'id', 'any', 'all', 'min', 'max'}
 
@@ -713,6 +715,25 @@ class _Norm(ast.NodeTransformer):
                                and order.get(id(n), 0) > order.get(id(st), 0)]
                 if len(stores) != 1 or root_stores:
                     continue
+                # a membership test speaks about the *contents* of its container: it cannot travel past a statement that changes them
+                if isinstance(st.value, ast.Compare) and isinstance(st.value.ops[0], (ast.In, ast.NotIn)):
+                    box = st.value.comparators[0]
+                    if isinstance(box, ast.Call):
+                        box = box.func.value
+                    btxt = ast.unparse(box)
+                    changed_later = False
+                    for n in ast.walk(fn):
+                        if order.get(id(n), 0) <= order.get(id(st), 0):
+                            continue
+                        if isinstance(n, ast.Call) and isinstance(n.func, ast.Attribute) and n.func.attr in _CONTENT_MUTATORS \
+                                and ast.unparse(n.func.value) == btxt:
+                            changed_later = True
+                        elif isinstance(n, ast.Subscript) and isinstance(n.ctx, (ast.Store, ast.Del)) and ast.unparse(n.value) == btxt:
+                            changed_later = True
+                        elif isinstance(n, ast.AugAssign) and ast.unparse(n.target) == btxt:
+                            changed_later = True
+                    if changed_later:
+                        continue
                 loads = [n for n in ast.walk(fn) if isinstance(n, ast.Name) and n.id == v and isinstance(n.ctx, ast.Load)]
                 later = blk[blk.index(st) + 1:]
                 in_later = {id(n) for x in later for n in ast.walk(x)}
@@ -1856,6 +1877,11 @@ def normalize(tree: ast.Module, ext=None) -> ast.Module:
     tree = pre_normalize(tree)
     tree = unroll_display_loops(tree)
     tree = _Norm().visit(tree)
+    from .normalize2 import late_rewrites
+    if late_rewrites(tree):
+        ast.fix_missing_locations(tree)
+        tree = pre_normalize(tree)
+        tree = _Norm().visit(tree)
     tree = _DoubleNot().visit(tree)
     tree = unroll_display_loops(tree)       # display loops that the last pass exposed (nested generator fusion)
     ast.fix_missing_locations(tree)
